@@ -202,6 +202,9 @@ func closure(reg ociregistry.Interface, repo string, dg ociregistry.Digest, seen
 		if json.Unmarshal(data, &m) != nil {
 			return
 		}
+		if m.Subject != nil {
+			closure(reg, repo, m.Subject.Digest, seen, out) // a subject is a reference too (it may dangle)
+		}
 		for _, d := range append(append([]ocispec.Descriptor{}, m.Layers...), m.Config) {
 			rb, err := reg.GetBlob(ctx, repo, d.Digest)
 			seen["blob "+string(d.Digest)] = err == nil
@@ -215,6 +218,9 @@ func closure(reg ociregistry.Interface, repo string, dg ociregistry.Digest, seen
 		var ix ocispec.Index
 		if json.Unmarshal(data, &ix) != nil {
 			return
+		}
+		if ix.Subject != nil {
+			closure(reg, repo, ix.Subject.Digest, seen, out)
 		}
 		for _, d := range ix.Manifests {
 			closure(reg, repo, d.Digest, seen, out)
@@ -378,7 +384,7 @@ var propRO = &vt.Prop[ROScript]{
 var propImm = &vt.Prop[ImmScript]{
 	ID:   "C14",
 	Name: "ImmutableModes",
-	Rule: "generated histories (<= 35 ops: tagged/untagged pushes of equal and different content under few tags, image manifests and nested indexes (a quarter of the universes are one chain of indexes seven manifests deep), deletes aimed at tagged manifests and their references, mounts, chunked uploads) through ocifilter.Immutable(ocimem) and on ocimem{ImmutableTags}; a ledger records (repository, tag) -> (digest, bytes) at the first successful tagged push or tag read; oracle after every step: every ledger entry still resolves to the same digest and reads the same bytes; wrapper: every delete fails and nothing that was ever retrievable disappears; tags mode: every layer, config and (nested) index child of every tagged manifest, interpreted by the media type it is stored with, is retrievable; non-trivial = a tag is in the ledger and a conflicting push or a refused delete occurred; distinct = (mode, op sequence)",
+	Rule: "generated histories (<= 35 ops: tagged/untagged pushes of equal and different content under few tags, image manifests and nested indexes (a quarter of the universes are one chain of indexes seven manifests deep), deletes aimed at tagged manifests and their references, mounts, chunked uploads) through ocifilter.Immutable(ocimem) and on ocimem{ImmutableTags}; a ledger records (repository, tag) -> (digest, bytes) at the first successful tagged push or tag read; oracle after every step: every ledger entry still resolves to the same digest and reads the same bytes; wrapper: every delete fails and nothing that was ever retrievable disappears; tags mode: every layer, config, (nested) index child and subject of every tagged manifest, interpreted by the media type it is stored with, is retrievable; non-trivial = a tag is in the ledger and a conflicting push or a refused delete occurred; distinct = (mode, op sequence)",
 	Gen: func(t *rapid.T) ImmScript {
 		return ImmScript{Mode: rapid.SampledFrom([]string{"wrapper", "tagsmode", "tagsmode"}).Draw(t, "mode"), Hist: hist.Gen(cfg())(t)}
 	},
